@@ -164,6 +164,13 @@ def generate(rs: int, tier: str, index: int) -> dict:
                         c[key] = c[key][:3]
             names_mode = ch.below(3)
             step = dict(c, id=0, k="monomial", names=(None if names_mode else model.gen_names(ch.sub("n"), c["dimensions"], c["dimensions"])))
+            if ch.sub("active").chance(0.35):
+                # the expansion is asked for while a block with other clean-up / sorting options is open (option state left by
+                # the caller): still every requested indeterminate, one monomial per exponent
+                ca = ch.sub("active")
+                step["active"] = {k: ca.sub(k).chance(0.5) for k in ca.sample(["retain_names", "retain_coefficients", "sort_graded", "sort_reverse"], ca.between(1, 3))}
+                if ca.chance(0.6):
+                    step["active"]["retain_names"] = False
             if names_mode and ch.sub("varname").chance(0.3):
                 step["varname"] = ch.sub("varname").choice(["x", "z"])
                 step.pop("abort_first", None)
@@ -406,6 +413,14 @@ class Runner:
                     def func():  # noqa: F811
                         with numpoly.global_options(default_varname=vn, varname_filter=vn + r"\d+"):
                             return plain()
+        if kind == "monomial" and step.get("active"):
+            unscoped = func
+            active = step["active"]
+            self.bump("probe:monomial_inside_option_block")
+
+            def func():  # noqa: F811
+                with numpoly.global_options(**active):
+                    return unscoped()
         if step.get("mutate_first") and kind != "monomial":
             # history: an earlier caller got the same result and edited it in place
             try:
@@ -519,6 +534,9 @@ class Runner:
                 return None
         if step.get("names") and list(names) != list(step["names"]):
             self.violate("monomial-names", "monomial", step["id"], f"names {names} != requested {step['names']}", where)
+            return None
+        if len(names) != int(step["dimensions"]):
+            self.violate("monomial-names", "monomial", step["id"], f"names {names} for dimensions={step['dimensions']} (options in force: {step.get('active')})", where)
             return None
         if poly.ndim != 1:
             self.violate("monomial-single-term", "monomial", step["id"], f"shape {poly.shape}", where)
